@@ -17,6 +17,7 @@
  */
 
 #include "value.h"
+#include <stdexcept>
 #include "complex.h"
 #include "tuple.h"
 #include "collection.h"
@@ -579,7 +580,12 @@ Value Value::parseLiteral(const std::string& text)
 
 Value Value::parseInteger(const std::string& text, int base)
 {
-  return Value(Integer(std::stoull(text, nullptr, base)));
+  unsigned long long u = std::stoull(text, nullptr, base);
+  /* a decimal constant must fit in an integer, as it does beyond 2^64
+   * (an hexadecimal constant gives the bit pattern) */
+  if (base == 10 && u > (unsigned long long)INT64_MAX)
+    throw std::out_of_range(text);
+  return Value(Integer(u));
 }
 
 Value Value::parseNumeric(const std::string& text)
